@@ -8,7 +8,7 @@ instructions and of the two helpers).  Core Lean only.
   fault — this is what the in-kernel verifier rejects).  Helper calls clobber
   R1–R5.
 * memory: three regions at fixed, disjoint addresses: the 512-byte stack below
-  R10 (bytes may be uninitialised), the 512-byte `cali_tc_state` map value, and
+  R10 (a function index → byte; bytes may be uninitialised), the 512-byte `cali_tc_state` map value, and
   the read-only context (`skb->cb[0..1]` only).  Any other access is a fault.
 * helper 1 `map_lookup_elem`: on the state map returns the state pointer (or 0
   when the environment says the lookup fails); on the IP-sets map it decodes
@@ -36,7 +36,7 @@ def mapHandleBase : Nat := 0x4000000000000000
 
 structure Mach where
   regs : List (Option Word)        -- 11 entries
-  stack : List (Option Byte)       -- 512 entries, index 0 = address R10-512
+  stack : Nat → Option Byte        -- byte at address R10-512+i (i < 512); none = uninitialised
   st : List Byte                   -- the cali_tc_state value, 512 bytes
 
 /-- What the program's environment answers. -/
@@ -54,7 +54,7 @@ structure Env where
 def Mach.init (st : List Byte) : Mach :=
   { regs := [none, some (BitVec.ofNat 64 ctxBase), none, none, none, none, none, none, none, none,
              some (BitVec.ofNat 64 stackTop)],
-    stack := List.replicate stackSize none, st := st }
+    stack := fun _ => none, st := st }
 
 def Mach.reg (m : Mach) (r : Nat) : Option Word := (m.regs.getD r none)
 def Mach.setReg (m : Mach) (r : Nat) (v : Word) : Mach := { m with regs := m.regs.set r (some v) }
@@ -76,10 +76,17 @@ def getBytes {α : Type} (l : List α) (off n : Nat) : Option (List α) :=
 def writeAt {α : Type} (l : List α) (off : Nat) (bs : List α) : List α :=
   l.take off ++ bs ++ l.drop (off + bs.length)
 
-def allSome {α : Type} : List (Option α) → Option (List α)
-  | [] => some []
-  | none :: _ => none
-  | some a :: r => (allSome r).map (a :: ·)
+/-- Read `n` stack bytes starting at index `i` (`none` if one is uninitialised). -/
+def readStack (s : Nat → Option Byte) (i : Nat) : Nat → Option (List Byte)
+  | 0 => some []
+  | n + 1 =>
+    match s i, readStack s (i + 1) n with
+    | some b, some bs => some (b :: bs)
+    | _, _ => none
+
+/-- Write bytes at stack index `i`. -/
+def writeStack (s : Nat → Option Byte) (i : Nat) (bs : List Byte) : Nat → Option Byte :=
+  fun j => if i ≤ j ∧ j < i + bs.length then bs[j - i]? else s j
 
 inductive Region | stack (i : Nat) | state (i : Nat) | ctx (i : Nat)
 
@@ -94,7 +101,7 @@ def region (addr : Word) (n : Nat) : Option Region :=
 /-- Load `n` bytes little-endian. -/
 def Mach.load (env : Env) (m : Mach) (addr : Word) (n : Nat) : Option Word :=
   match region addr n with
-  | some (.stack i) => ((getBytes m.stack i n).bind allSome).map (fun bs => BitVec.ofNat 64 (leNat bs))
+  | some (.stack i) => (readStack m.stack i n).map (fun bs => BitVec.ofNat 64 (leNat bs))
   | some (.state i) => (getBytes m.st i n).map (fun bs => BitVec.ofNat 64 (leNat bs))
   | some (.ctx i) =>
     if n = 4 ∧ i = 48 then some (env.cb0.setWidth 64)
@@ -104,7 +111,7 @@ def Mach.load (env : Env) (m : Mach) (addr : Word) (n : Nat) : Option Word :=
 
 def Mach.store (m : Mach) (addr : Word) (n : Nat) (v : Word) : Option Mach :=
   match region addr n with
-  | some (.stack i) => some { m with stack := writeAt m.stack i ((toLE v.toNat n).map some) }
+  | some (.stack i) => some { m with stack := writeStack m.stack i (toLE v.toNat n) }
   | some (.state i) => some { m with st := writeAt m.st i (toLE v.toNat n) }
   | _ => none
 
@@ -146,7 +153,7 @@ def mapHandle (fd : Int) : Word := BitVec.ofNat 64 mapHandleBase + BitVec.ofInt 
 /-- Decode the IP-set LPM key at stack index `i`. -/
 def ipsetLookup (env : Env) (m : Mach) (i : Nat) : Option Bool :=
   let n := if env.c.v6 then 32 else 20
-  match (getBytes m.stack i n).bind allSome with
+  match readStack m.stack i n with
   | none => none
   | some k =>
     let pfx := leNat (k.take 4)
